@@ -23,8 +23,9 @@ struct Fp {
 	Fp() : v(0) {}
 	Fp(int x) : v(x >= 0 ? (uint64_t)x % P : (P - (uint64_t)(-(long long)x) % P) % P) {}
 	Fp(long long x) : v(x >= 0 ? (uint64_t)x % P : (P - (uint64_t)(-x) % P) % P) {}
-	Fp(double d) {   // the only non-integer literals of the templates: (T)0.5 and T(PI) (PI stands for the constant 3, see cos/sin below)
+	Fp(double d) {   // the only non-integer literals of the templates: (T)0.5, T(PI) (PI stands for the constant 3, see cos/sin below) and the threshold T(4e-15)
 		if (d == 0.5) v = (P + 1) / 2; else if (d > 3.14159 && d < 3.1416) v = 3;
+		else if (d > 0 && d < 1e-3) v = 7;   // the gimbal-lock threshold literals of eulerAngles (T(2e-6) / T(4e-15)): the constant LIM of the driver
 		else if (d == (double)(long long)d && fabs(d) < 1e15) v = Fp((long long)d).v; else { fprintf(stderr, "Fp: unsupported literal %g\n", d); abort(); } }
 	static Fp raw(uint64_t x) { Fp r; r.v = x % P; return r; }
 };
@@ -336,7 +337,7 @@ static const char* ORDERS[12] = { "XYZ", "XZY", "YXZ", "YZX", "ZXY", "ZYX", "XYX
 
 // all conversions starting from one rotation matrix R (reference Rref): quaternion, axis-angle, 24 Euler conventions
 template<class T>
-static std::string rotAll(const Matrix4_<T>& R, const R3& Rref, const char* origin, const char* relEuler)
+static std::string rotAll(const Matrix4_<T>& R, const R3& Rref, const char* origin)
 {
 	// tight = c*eps for every conversion, at any angle (incl. 10^-k) and at any distance from gimbal lock: going from a rotation
 	// to Euler angles and back to a rotation is a well-conditioned problem (only the individual angles are ill-conditioned next to
@@ -366,14 +367,13 @@ static std::string rotAll(const Matrix4_<T>& R, const R3& Rref, const char* orig
 		if (!(a.x == a.x && a.y == a.y && a.z == a.z)) return "fail " + tn + "eulerAngles(" + name + ") is NaN";
 		// independent composition in long double: moving axes R[a0](x) R[a1](y) R[a2](z); fixed axes = reversed product
 		int i0 = name[0] - 'X', i1 = name[1] - 'X', i2 = name[2] - 'X';
-		LD loose = tight;
 		R3 ref = fixed ? ldmul(ldmul(ldaxis(i2, a.z), ldaxis(i1, a.y)), ldaxis(i0, a.x))
 		               : ldmul(ldmul(ldaxis(i0, a.x), ldaxis(i1, a.y)), ldaxis(i2, a.z));
 		LD e1 = 0;
 		for (int i = 0; i < 3; i++) for (int j = 0; j < 3; j++) e1 = std::max(e1, fabsl(ref.m[i][j] - Rref.m[i][j]));
-		if (!(e1 <= loose)) return failmsg((tn + "eulerAngles(" + name + ") composed independently").c_str(), e1, loose);
+		if (!(e1 <= tight)) return failmsg((tn + "eulerAngles(" + name + ") composed independently").c_str(), e1, tight);
 		e = rdist(Matrix4_<T>::rotateE(a, name), Rref);
-		if (!(e <= loose)) return failmsg((tn + "rotateE(eulerAngles(" + name + "))").c_str(), e, loose);
+		if (!(e <= tight)) return failmsg((tn + "rotateE(eulerAngles(" + name + "))").c_str(), e, tight);
 	}
 	return "ok";
 }
@@ -386,7 +386,7 @@ static std::string frot(const std::vector<double>& v)
 	w /= n; x /= n; y /= n; z /= n;
 	Quaternion_<T> q((T)w, (T)x, (T)y, (T)z);
 	R3 ref = ldquat(w, x, y, z);
-	return rotAll<T>(q.matrix(), ref, "quat", 0);
+	return rotAll<T>(q.matrix(), ref, "quat");
 }
 
 template<class T>
@@ -398,7 +398,7 @@ static std::string feuler(const std::string& order, const std::vector<double>& v
 	R3 ref = fixed ? ldmul(ldmul(ldaxis(i2, (LD)a.z), ldaxis(i1, (LD)a.y)), ldaxis(i0, (LD)a.x))
 	               : ldmul(ldmul(ldaxis(i0, (LD)a.x), ldaxis(i1, (LD)a.y)), ldaxis(i2, (LD)a.z));
 	Matrix4_<T> R = Matrix4_<T>::rotateE(a, order.c_str());
-	return rotAll<T>(R, ref, ("euler " + order).c_str(), order.c_str());
+	return rotAll<T>(R, ref, ("euler " + order).c_str());
 }
 
 template<class T>
@@ -411,7 +411,7 @@ static std::string faxis(const std::vector<double>& v)
 	if (ang == 0) ref = ldquat(1, 0, 0, 0);
 	else ref = ldquat(cosl(ang / 2), sinl(ang / 2) * ax / ang, sinl(ang / 2) * ay / ang, sinl(ang / 2) * az / ang);
 	Matrix4_<T> R = Matrix4_<T>::rotate(a);
-	std::string s = rotAll<T>(R, ref, "axis-angle", 0);
+	std::string s = rotAll<T>(R, ref, "axis-angle");
 	if (s != "ok") return s;
 	LD eps = Eps<T>::v(), loose = 64 * eps * std::max((LD)1, ang);
 	if (ang < 3.14159265358979323846L - 1e-3L) {   // at pi the vectors v and -v describe the same rotation
@@ -511,6 +511,10 @@ static std::string step(const Toks& t)
 	if (op == "m4rotv" && n == 3) return show(M4::rotate(Vec3_<Fp>(v[0], v[1], v[2])));
 	if (op == "m4axang" && n == 16) return show(m4of(v).axisAngle());
 	if (op == "m4rote" && n == 6) return show(M4::rotateE(Vec3_<Fp>(v[0], v[1], v[2]), (int)(v[3].v % 3), (int)(v[4].v % 3), (int)(v[5].v % 3)));
+	if (op == "m4euler" && n == 19) {   // eulerAngles(a0, a1, a2) with a1 != a0 forced (k = 3 - a0 - a1 must be an axis)
+		int a0 = (int)(v[16].v % 3), a1 = (a0 + 1 + (int)(v[17].v % 2)) % 3, a2 = (int)(v[18].v % 3);
+		return show(m4of(v).eulerAngles(a0, a1, a2));
+	}
 	if (op == "qmat" && n == 4) return show(Q(v[0], v[1], v[2], v[3]).matrix());
 	if (op == "qmul" && n == 8) return show(Q(v[0], v[1], v[2], v[3]) ^ Q(v[4], v[5], v[6], v[7]));
 	if (op == "qconj" && n == 4) return show(Q(v[0], v[1], v[2], v[3]).conj());
